@@ -120,7 +120,8 @@ MaxStaleCovers(r, a, rq) ==
   \/ rq.ms = Invalid                       \* unparsable argument: either reading
   \/ (rq.ms >= 0 /\ a - EffLifeMax(r, rq) <= rq.ms)
 
-InOwnSwr(r, a) == r.ccp = 1 /\ r.swr >= 0 /\ a - OwnLifeMax(r) < r.swr
+\* (an age and a window that are both "at least 2^31": undetermined)
+InOwnSwr(r, a) == r.ccp = 1 /\ r.swr >= 0 /\ (a - OwnLifeMax(r) < r.swr \/ (a >= CAP /\ r.swr >= CAP))
 
 StalenessAllowed(r, a, rq) ==
   \/ MayFresh(r, a, rq)
